@@ -12,8 +12,9 @@
        delete_delayed_calls, get_delayed_calls_count
    There is no capture timeout: a row whose `processing` flag was set by a process that
    died stays captured for ever (see Proofs/SchedLegacyProofs.v: crash_recovery_refuted).
-   Correspondence suite: harness/suites/C13.py (suite "legacy": real LegacyScheduler objects
-   driven step by step against `lrun`).  No proofs in this file. *)
+   Correspondence: harness/suites/C13.py - suites "corpus" and "legacy": real LegacyScheduler
+   objects driven step by step against `lview (lrun batch steps linit)`; suite "components":
+   get_delayed_calls_to_start / _capture_calls against `lcandidates`.  No proofs in this file. *)
 From Coq Require Import List NArith Bool Arith.
 Require Import Mistral.Model.Sched.
 Import ListNotations.
